@@ -199,6 +199,11 @@ pub fn solve_and_replay_from(problem: Arc<Problem>, gp: &PragProblem, config: &V
         Some(init) => crate::solverun::solve_with_config_and_init(problem, config, init),
         None => solve_with_config(problem, config),
     };
+    replay_outcome(outcome, gp)
+}
+
+/// Judges the outcome of a solve which the caller ran itself.
+pub fn replay_outcome(outcome: SolveOutcome, gp: &PragProblem) -> CaseOutcome {
     match outcome {
         SolveOutcome::Ok(text) => {
             let solution: Value = match serde_json::from_str(&text) {
@@ -445,11 +450,23 @@ pub fn run_end_to_end(run: &Run, prop: &'static str) {
         // (vrp-cli solve --init-solution); what comes out must be as valid as the result of a cold start
         if (prop == "C01" || prop == "C02") && !gp.has("clustering") && rng.chance(0.3) && run.has_time() {
             let first_cfg = simple_config(rng.range_usize(2, 25), 1, 4);
-            if let CaseOutcome::Done(first) = solve_and_replay(problem.clone(), &gp, &first_cfg) {
-                if first.report.is_clean() && first.report.tours > 0 {
-                    let mut gp_w = gp.clone();
-                    gp_w.features.insert("warm-start".into());
-                    judge_case_from(run, prop, case_seed, &gp_w, &config, &shape, problem.clone(), "warm-start", Some(&first.solution));
+            let mut gp_w = gp.clone();
+            gp_w.features.insert("warm-start".into());
+            if rng.chance(0.5) {
+                // the document path (vrp-cli solve --init-solution)
+                if let CaseOutcome::Done(first) = solve_and_replay(problem.clone(), &gp, &first_cfg) {
+                    if first.report.is_clean() && first.report.tours > 0 {
+                        judge_case_from(run, prop, case_seed, &gp_w, &config, &shape, problem.clone(), "warm-start", Some(&first.solution));
+                    }
+                }
+            } else {
+                // the library path: the core Solution of the first solve (detailed unassignment reasons and all) is the initial solution
+                let (first, second) = crate::solverun::solve_twice_through_core_solution(problem.clone(), &first_cfg, &config);
+                if let (CaseOutcome::Done(first), Some(second)) = (replay_outcome(first, &gp), second) {
+                    if first.report.is_clean() && first.report.tours > 0 {
+                        INIT_SOLUTION.with(|i| *i.borrow_mut() = Some(first.solution.clone()));
+                        judge_outcome(run, prop, case_seed, &gp_w, &config, &shape, "warm-start (core solution)", replay_outcome(second, &gp));
+                    }
                 }
             }
         }
@@ -571,6 +588,11 @@ impl Drop for ResetInit {
 fn judge_case_from(run: &Run, prop: &'static str, case_seed: u64, gp: &PragProblem, config: &Value, shape: &ConfigShape, problem: Arc<Problem>, phase: &str, init: Option<&Value>) {
     INIT_SOLUTION.with(|i| *i.borrow_mut() = init.cloned());
     let outcome = solve_and_replay_from(problem, gp, config, init);
+    judge_outcome(run, prop, case_seed, gp, config, shape, phase, outcome)
+}
+
+#[allow(clippy::too_many_arguments)]
+fn judge_outcome(run: &Run, prop: &'static str, case_seed: u64, gp: &PragProblem, config: &Value, shape: &ConfigShape, phase: &str, outcome: CaseOutcome) {
     let _reset = ResetInit;
     match outcome {
         CaseOutcome::SolveErr(e) if e.starts_with("init-solution:") => {
